@@ -75,9 +75,10 @@ def classify(facts, g, bb, t):
         # loop guard mentions an accumulated local
         if arith and zero_test:
             return "ACCUMULATE-LOOP", "count accumulated into the loop-controlling offset/remainder; 0 leaves through EOF/error"
-        if zero_test and not arith and g.rec.get("impl_trait") == T_DROP:
+        in_destructor = g.rec.get("impl_trait") == T_DROP or only_from_destructors(facts, g.id)
+        if zero_test and not arith and in_destructor:
             return "DRAIN-LOOP", "destructor loops until 0 or error"
-        if g.rec.get("impl_trait") == T_DROP and not arith:
+        if in_destructor and not arith:
             # `while !self.finished { let _ = self.read(&mut scratch); }`: the type's own read keeps the end-of-body latch the loop tests
             recv = g.origin(t["args"][0])
             own = any(x == ("arg", 1) for x in origin_walk(recv)) and not origin_fields(recv)
@@ -210,9 +211,9 @@ def run(ctx):
     # a discarding loop must not take bytes beyond the body it discards: whether it would depends on how much of the
     # following message has already arrived, i.e. on segmentation
     import drain_rules as DR
-    sz = [x["name"] for x in facts.adt(ER)["variants"][0]["fields"] if x["ty"] == "usize"]
-    ctx.require(len(sz) == 1, "C13.2: remaining-size field of the length-limited reader")
-    DR.owed_rules(ctx, "C13.2", ER, (1, "*", "." + sz[0]), rules={"bounded": ["C13.2"], "complete": []})
+    sz = shared.size_key_of(facts, ER)
+    ctx.require(sz is not None, "C13.2: remaining-size field of the length-limited reader")
+    DR.owed_rules(ctx, "C13.2", ER, (1, "*") + sz, rules={"bounded": ["C13.2"], "complete": []})
 
     # ---- C13.3 loop-carried parser state in the line reader
     line_reader_rules(ctx, facts, "C13.3")
